@@ -1,4 +1,5 @@
 import Zc.Model.SurviveRoute
+import Zc.Gen.SurviveApi
 /-! # C15 — the last uninterpreted residue: user listeners, future wake-ups, `async_notify_all`
 
 `Zc.Survive.Route.Base` left one function uninterpreted: what the record manager does with the listeners that
@@ -39,14 +40,19 @@ structure Fut where
 /-- `fut.set_result(None)`: `InvalidStateError` on a future that is done -/
 def Fut.setResult (f : Fut) : Except PyExc Fut := if f.done then .error .other else .ok { f with done := true }
 
-/-- `_set_future_none_if_not_done(fut)` -/
-def setNoneIfNotDone (f : Fut) : Except PyExc Fut := if !f.done then f.setResult else .ok f
+/-- `_set_future_none_if_not_done(fut)`: `if not fut.done(): fut.set_result(None)` (the test is a translated leaf) -/
+def setNoneIfNotDone (f : Fut) : Except PyExc Fut := if Gen.SurviveApi.fut_set_guard f.done then f.setResult else .ok f
+
+/-- what `_resolve_all_futures_to_none` does with one future: through the guard (translated leaf `resolve_all_guarded`: does the loop
+call `_set_future_none_if_not_done`?), or `fut.set_result(None)` outright -/
+def resolveOne (f : Fut) : Except PyExc Fut :=
+  if Gen.SurviveApi.resolve_all_guarded then setNoneIfNotDone f else f.setResult
 
 /-- the loop of `_resolve_all_futures_to_none(futures)`; returns the futures as they are afterwards (the set itself is then cleared) -/
 def resolveAll : List Fut → Except PyExc (List Fut)
   | [] => .ok []
   | f :: fs =>
-    match setNoneIfNotDone f with
+    match resolveOne f with
     | .error e => .error e
     | .ok f' =>
       match resolveAll fs with
